@@ -134,6 +134,8 @@ class ParticleReleaser(Iterator[pd.DataFrame]):
 
         # Make dataframes for each timeframe
         self._B = [x[1] for x in self._df.groupby(self._df.index)]
+        if timer.time_reversal:  # groupby sorts by time, releases happen in step order
+            self._B.reverse()
 
         # # Read the particle variables
         self._index = 0  # Index of next release
